@@ -58,7 +58,7 @@ with cond :=
 Record env := mkEnv { e_cur : option row; e_ctx : option (option row * option row) }.
 
 (** result of evaluating a condition: error, or a boolean / NULL, or a non-boolean value *)
-Inductive cres := RErr | RBool (b : option bool) | RNonBool.
+Inductive cres := RErr | RBool (b : option bool) | RNonBool (v : cell).
 
 Definition col_of (r : option row) (i : nat) : option cell :=
   match r with
@@ -107,11 +107,11 @@ with eval_cond (en : env) (c : cond) : cres :=
   | CAnd a b =>
       match eval_cond en a with
       | RErr => RErr
-      | RNonBool => RErr
+      | RNonBool _ => RErr
       | RBool (Some false) => RBool (Some false)      (* short circuit: the right operand is not evaluated *)
       | RBool la =>
           match eval_cond en b with
-          | RErr | RNonBool => RErr
+          | RErr | RNonBool _ => RErr
           | RBool (Some false) => RBool (Some false)
           | RBool (Some true) => RBool la
           | RBool None => RBool None
@@ -120,11 +120,11 @@ with eval_cond (en : env) (c : cond) : cres :=
   | COr a b =>
       match eval_cond en a with
       | RErr => RErr
-      | RNonBool => RErr
+      | RNonBool _ => RErr
       | RBool (Some true) => RBool (Some true)
       | RBool la =>
           match eval_cond en b with
-          | RErr | RNonBool => RErr
+          | RErr | RNonBool _ => RErr
           | RBool (Some true) => RBool (Some true)
           | RBool (Some false) => RBool la
           | RBool None => RBool None
@@ -145,17 +145,20 @@ with eval_cond (en : env) (c : cond) : cres :=
   | CVal a =>
       match eval_expr en a with
       | Some VNull => RBool None
-      | Some _ => RNonBool
+      | Some v => RNonBool v
       | None => RErr
       end
   end.
 
-(** WHERE / CHECK style use: [Some true] only for TRUE; [None] for an evaluation error *)
-Definition cond_true (en : env) (c : cond) : option bool :=
+(** the truth value of a WHERE result in UPDATE and DELETE (select/filter.rs where_value_is_true, the rule SELECT uses):
+    TRUE selects, FALSE and NULL do not, an integer selects when it is not 0, anything else is an error;
+    [None] = the statement fails (evaluation error or a non-boolean, non-numeric value) *)
+Definition where_true (en : env) (c : cond) : option bool :=
   match eval_cond en c with
-  | RBool (Some true) => Some true
-  | RBool _ => Some false
-  | RNonBool => Some false        (* WHERE 5: "only TRUE causes update" -- matches! on Boolean(true) *)
+  | RBool (Some b) => Some b
+  | RBool None => Some false
+  | RNonBool (VInt z) => Some (negb (Z.eqb z 0))
+  | RNonBool _ => None
   | RErr => None
   end.
 
@@ -247,7 +250,7 @@ Definition eval_when (c : cond) (o n : option row) : option bool :=
       match eval_cond (mkEnv (Some cur) (Some (o, n))) c with
       | RBool (Some b) => Some b
       | RBool None => Some false
-      | RNonBool => None                            (* "WHEN condition must evaluate to boolean" *)
+      | RNonBool _ => None                          (* "WHEN condition must evaluate to boolean" *)
       | RErr => None
       end
   end.
